@@ -1,6 +1,7 @@
 """C11 - every input ends in a verdict or a library error; documented limits hold."""
 import copy
 import io
+import tempfile
 import os
 import traceback
 
@@ -392,11 +393,26 @@ def run_bytes(spec, res):
         variants.append(('latin1_bytes_declared_utf8', 0, text.replace('Chair', 'Chäir').encode('latin-1', 'replace')))
         variants.append(('bom_twice', 0, b'\xef\xbb\xbf\xef\xbb\xbf' + data))
         variants.append(('nul_inside', 0, data[:len(data) // 2] + b'\x00' + data[len(data) // 2:]))
+        variants.append(('unknown_encoding_declared', 0, b'<?xml version="1.0" encoding="foo-8"?>' + data.split(b'?>', 1)[-1]))
+        variants.append(('undecodable_bytes_in_text', 0, data.replace(b'>', b'>\xff\xfe', 1)))
         for kind, pos, blob in variants:
             case = {'family': fam, 'fault': kind, 'pos': pos, 'hex': blob[:4000].hex()}
             res.nontrivial.add(env.h8((fam, kind, pos if kind == 'truncate' else 0)))
             res.count('fault:' + kind)
             drive(sent, xmlschema, schema, lambda: blob, case)
+            if kind not in ('truncate', 'bitflip') or pos % 16 == 0:
+                # the same bytes through the defusing pre-scan and through a text-mode file object (the decoding of the
+                # bytes is then the file object's, inside the library's read loop)
+                sent.call('XMLResource:defuse_always', lambda: xmlschema.XMLResource(io.BytesIO(blob), defuse='always'), case)
+                sent.call('iter_errors:defuse_always_lazy', lambda: list(schema.iter_errors(
+                    xmlschema.XMLResource(io.BytesIO(blob), defuse='always', lazy=True))), case, lax=True, wellformed=False)
+                with tempfile.NamedTemporaryFile(suffix='.xml') as tf:
+                    tf.write(blob)
+                    tf.flush()
+                    for lazy in (False, True):
+                        with open(tf.name, 'r', encoding='utf-8') as textfile:
+                            sent.call('iter_errors:text_mode_file', lambda: list(schema.iter_errors(
+                                xmlschema.XMLResource(textfile, lazy=lazy))), case, lax=True, wellformed=False)
             if kind == 'truncate' and pos % 8 == 0:
                 for err in (False,):   # an exception raised by the source object itself is the source's, not the library's
                     sent.call('XMLResource:nonseekable', lambda: xmlschema.XMLResource(Truncating(data, len(blob), err)), case)
